@@ -842,8 +842,19 @@ function collectModelListeners(root) {
     } else if (n instanceof ge.Component) {
       const ml = n._$dataGroup && n._$dataGroup._$modelBindingListener
       if (ml) for (const k of Object.keys(ml)) out.push({ node: n, name: k, fn: ml[k], kind: 'component' })
+      // inputs inside a child write to the child's data (and on through its model-bound property)
+      const sr = n.getShadowRoot()
+      if (sr && n !== root) sr.childNodes.forEach(walkInner(n))
     }
     n.childNodes.forEach(walk)
+  }
+  const walkInner = (owner) => (n) => {
+    if (n instanceof ge.TextNode) return
+    if (n instanceof ge.NativeNode) {
+      const ml = n._$modelBindingListeners
+      if (ml) for (const k of Object.keys(ml)) out.push({ node: n, name: k, fn: ml[k], kind: 'native', owner })
+    }
+    if (!(n instanceof ge.Component)) n.childNodes.forEach(walkInner(owner))
   }
   walk(root.getShadowRoot())
   return out
@@ -1334,6 +1345,14 @@ function runWorld(job) {
         if (l.kind === 'native') {
           l.fn.call(l.node, clone(v))
           bump(ctx, 'fault.model_write')
+          if (l.owner && entry && entry.path) {
+            // get-put inside the child, and for what the child's bound property now holds in the host
+            bump(ctx, 'probe.c11.child_inner_put_checked')
+            const got = getPath(l.owner.data, entry.path)
+            if (!(Object.is(got, v) || (isObj(got) && deepEq(got, v)))) {
+              violation('C11', 'model_put_not_at_path', `writing ${enc(v)} through the model listener of <${l.node.is}> ${l.name} inside <${l.owner.is}> (path ${enc(entry.path)} in the child's data) left ${enc(got)} at that path; child data: ${enc(l.owner.data).slice(0, 300)}; host data: ${enc(curD()).slice(0, 300)}`)
+            }
+          }
         } else if (!entry || !entry.path) {
           // the component's listener is a no-op (no assignable path now): writing would only
           // create child-local state that no host data reproduces
